@@ -6,6 +6,8 @@
 //!   `ui` / `uI` / `uJ`   session.use_keyspace(<invalid name>, cs): "bad name" / "k;DROP" / 49 characters
 //!   `da<k>` / `db<k>` / `dA<k>`  TWO use_keyspace calls for the same name concurrently; as soon as the first returns Ok,
 //!                 k requests are submitted (while the other call may still be running)
+//!   `ya` / `yb`   the USER sends the statement `USE ka` / `USE kb` through session.query_unpaged: one connection switches,
+//!                 then the session itself calls use_keyspace(<name the server returned>, true) before the query returns
 //!   `f1` / `f0`   from now on the nodes answer `USE` with an Invalid error / normally again
 //!   `t1` / `t0`   from now on the nodes do not answer `USE` at all (the call times out after `ct` ms) / normally again
 //!   `q<k>`        k requests, one after another
@@ -33,7 +35,7 @@ use std::time::Duration;
 /// Histories that REPEAT a name: after a failed / timed-out call, concurrently, an invalid name several times, the
 /// same name with the other case_sensitive flag.
 fn generate_repeats(rng: &mut Rng, tier: Tier, emit: &mut dyn FnMut(String)) {
-    let n_cases = if tier == Tier::Quick { 36 } else { 360 };
+    let n_cases = if tier == Tier::Quick { 42 } else { 420 };
     for c in 0..n_cases {
         let n = 1 + rng.below(3);
         let name = *rng.pick(&["a", "b", "A"]);
@@ -46,7 +48,21 @@ fn generate_repeats(rng: &mut Rng, tier: Tier, emit: &mut dyn FnMut(String)) {
             ops.push(format!("u{}", other));
             ops.push(rq(rng));
         }
-        match c % 6 {
+        match c % 7 {
+            // a user-issued USE statement (the session follows up by itself), also after a failed call for the same name
+            6 => {
+                if rng.bool() {
+                    ops.push("f1".into());
+                    ops.push(format!("u{}", if name == "b" { "b" } else { "a" }));
+                    ops.push("f0".into());
+                }
+                ops.push(format!("y{}", if name == "b" { "b" } else { "a" }));
+                ops.push(rq(rng));
+                ops.push(format!("y{}", other));
+                ops.push(rq(rng));
+                ops.push(if rng.bool() { "K".to_owned() } else { format!("k{}", rng.below(n)) });
+                ops.push(rq(rng));
+            }
             // the server rejects the USE; the retry with the same name must send it again
             0 => {
                 ops.push("f1".into());
@@ -148,7 +164,7 @@ pub fn generate(rng: &mut Rng, tier: Tier, emit: &mut dyn FnMut(String)) {
                 }
                 8 => "w".to_owned(),
                 9 => format!("s{}", 1 + rng.below(30)),
-                10 => (*rng.pick(&["ua", "ub"])).to_owned(),
+                10 => (*rng.pick(&["ua", "ub", "ya", "yb"])).to_owned(),
                 _ => format!("x{}{}", rng.pick(&["a", "b"]), 2 + rng.below(4)),
             };
             let is_fault = op.starts_with('k') || op == "K" || op == "add";
@@ -322,6 +338,20 @@ pub fn run(words: &[&str], ctx: &mut Ctx) -> String {
                             if valid {
                                 confirmed = None;
                             }
+                            uses_err += 1;
+                        }
+                    }
+                }
+                ("ya" | "yb", None) => {
+                    // session.rs handle_set_keyspace_response: the follow-up use_keyspace is awaited inside the query
+                    let k = if head == "ya" { "ka" } else { "kb" };
+                    match session.query_unpaged(format!("USE {}", k), ()).await {
+                        Ok(_) => {
+                            confirmed = Some(k.to_owned());
+                            uses_ok += 1;
+                        }
+                        Err(_) => {
+                            confirmed = None;
                             uses_err += 1;
                         }
                     }
